@@ -154,7 +154,7 @@ theorem unicodeFormatAux_shape : ∀ (fuel : Nat) (s out : Bytes) (off : Nat),
     rw [go_cons, List.length_cons]
     have hsz : (if (Utf8.decodeRune (b :: rest)).2 = 0 then 1 else (Utf8.decodeRune (b :: rest)).2) =
         (Utf8.decodeRune (b :: rest)).2 := by
-      rcases Utf8.decodeRune_cases b rest with h1 | h1
+      rcases Utf8L.decodeRune_cases b rest with h1 | h1
       · rw [h1]; rfl
       · have := h1.sz1
         have : (Utf8.decodeRune (b :: rest)).2 ≠ 0 := by omega
@@ -163,7 +163,7 @@ theorem unicodeFormatAux_shape : ∀ (fuel : Nat) (s out : Bytes) (off : Nat),
     unfold unicodeFormatAux at h
     by_cases hb : b < 0x80
     · simp only [hb, if_true] at h
-      have hda := Utf8.decodeRune_ascii rest hb
+      have hda := Utf8L.decodeRune_ascii rest hb
       rw [hda]
       split at h
       · rename_i d r hd hr
